@@ -73,7 +73,14 @@ func genConc(seed uint64, prop string) *Scenario {
 	sc := &Scenario{Family: "conc", Seed: seed, Cfg: cfg}
 	g := newGen(seed, 0x636f6e64, &sc.Cfg)
 	nsess := 2 + r.IntN(3)
+	late := -1
+	if r.IntN(3) == 0 {
+		late = 1 + r.IntN(nsess-1) // this session connects and negotiates while the others are already at work
+	}
 	for s := 0; s < nsess; s++ {
+		if s == late {
+			sc.Steps = append(sc.Steps, Step{T: "s-join", Sess: s, A: r.IntN(25)})
+		}
 		id := [2]uint64{0, uint64(5 + r.IntN(4))}
 		sc.Steps = append(sc.Steps, Step{T: "s-elect", Sess: s, Elec: &id})
 		nb := 1 + r.IntN(3)
@@ -141,7 +148,7 @@ func runConc(e *env) {
 		switch st.T {
 		case "ni-adder":
 			adders = append(adders, st)
-		case "s-elect", "s-ops", "s-leave":
+		case "s-join", "s-elect", "s-ops", "s-leave":
 			p := plans[st.Sess]
 			if p == nil {
 				p = &sessPlan{n: st.Sess}
@@ -170,6 +177,9 @@ func runConc(e *env) {
 		p := plans[sn]
 		p.s = &session{idx: len(e.sess), sent: map[uint64]*opRec{}, fibAck: e.sc.Cfg.FIBAck}
 		e.sess = append(e.sess, p.s)
+		if len(p.steps) > 0 && p.steps[0].T == "s-join" {
+			continue // connects and negotiates from its own task, concurrently with the others' work
+		}
 		p.s.mc = e.net.OpenModify()
 		c := 6
 		if p.s.fibAck {
@@ -183,7 +193,7 @@ func runConc(e *env) {
 	}
 	for _, sn := range order {
 		p := plans[sn]
-		if len(p.steps) == 0 || p.steps[0].T != "s-elect" {
+		if len(p.steps) == 0 || (p.steps[0].T != "s-elect" && !(p.steps[0].T == "s-join" && len(p.steps) > 1 && p.steps[1].T == "s-elect")) {
 			continue // shrinking removed the announcement: this session has nothing meaningful to do
 		}
 		want++
@@ -192,6 +202,22 @@ func runConc(e *env) {
 			s := p.s
 			for _, st := range p.steps {
 				switch st.T {
+				case "s-join":
+					// every other session has negotiated these very parameters, so this must be accepted
+					simrt.Yield("join-delay", st.A)
+					s.mc = e.net.OpenModify()
+					c := 6
+					if s.fibAck {
+						c = 7
+					}
+					s.mc.Send(&spb.ModifyRequest{Params: comboParams(c)})
+					r, err := s.mc.RecvTimeout(10 * time.Minute)
+					if err != nil || r.GetSessionParamsResult().GetStatus() != spb.SessionParametersResult_OK {
+						problems = append(problems, fmt.Sprintf("session %d joining late: negotiation of the parameters every other session uses failed: %v %v", p.n, r, err))
+						return
+					}
+					e.probe("session negotiated while others were active")
+					continue
 				case "s-elect":
 					id := *st.Elec
 					s.elec = id
